@@ -514,6 +514,8 @@ fn sieve_block_poly(s: &ClSieve, pol: &Poly, a: &A, st: &mut sieve::Sieve) {
             large1,
             large2,
         };
+        #[cfg(yamaquasi_verif)]
+        crate::verif::ev(|| vhook::rel_event(&s.d, &pol.description(), x, &bx.to_string(), &rel));
         let mut rels = s.rels.write().unwrap();
         rels.add(rel);
         if rels.done() {
@@ -755,4 +757,54 @@ fn failing_test_classgroup() {
 
     let d = parse_int("-333684818975420457430375646788");
     classgroup(&d, &prefs, None);
+}
+
+/// Verification hook (cfg(yamaquasi_verif) only): formats the relation handed to
+/// `CRelationSet::add` together with the sieve value u = bx it was derived from.
+#[cfg(yamaquasi_verif)]
+pub mod vhook {
+    use super::*;
+
+    pub fn rel_event(d: &Int, poly: &str, x: i64, u: &str, rel: &CRelation) -> String {
+        let mut f = String::new();
+        for (i, &(p, e)) in rel.factors.iter().enumerate() {
+            if i > 0 {
+                f.push(',');
+            }
+            f.push_str(&format!("[{},{}]", p, e));
+        }
+        let lp = |l: Option<(u32, i32)>| match l {
+            Some((p, e)) => format!("[{},{}]", p, e),
+            None => "null".to_string(),
+        };
+        format!(
+            "\"op\":\"cls_rel\",\"d\":\"{}\",\"poly\":\"{}\",\"x\":{},\"u\":\"{}\",\"f\":[{}],\"l1\":{},\"l2\":{}",
+            d,
+            poly,
+            x,
+            u,
+            f,
+            lp(rel.large1),
+            lp(rel.large2)
+        )
+    }
+}
+
+/// Verification accessors for the crate-private parameter functions (cfg(yamaquasi_verif) only).
+#[cfg(yamaquasi_verif)]
+pub mod vhook_params {
+    use super::*;
+
+    pub fn a_params(sz: u32) -> (u32, u32) {
+        super::a_params(sz)
+    }
+    pub fn interval_size(sz: u32) -> u32 {
+        super::interval_size(sz)
+    }
+    pub fn large_prime_factor(sz: u32) -> u64 {
+        super::large_prime_factor(sz)
+    }
+    pub fn double_large_factor(n: &Int) -> u64 {
+        super::double_large_factor(n)
+    }
 }
